@@ -112,6 +112,14 @@ def _oracle_all(ctx):
             if harness_errors:   # the machine, not the code: e.g. the cmd stream's child process could not be started
                 ctx.count("oracle.%s.harness-errors" % st, len(harness_errors))
                 ctx.tie_broken("harness-error:" + st, "%d case(s) could not be run: %s" % (len(harness_errors), harness_errors[0]))
+            seen_known = set()
+            for i, v in enumerate(verdicts):
+                if v.startswith("KNOWN"):   # a registered class, recognised by its cause: KNOWN-FINDING, counted
+                    fp = v.split()[1]
+                    ctx.count("oracle.known." + fp.split(":", 1)[1])
+                    if fp not in seen_known:
+                        seen_known.add(fp)
+                        ctx.violation(fp, OBSERVATIONS.get(fp, v), {"stream": st, "ops": _case_at(ctx, g, i), "oracle_verdict": v}, True)
             for i, v in enumerate(verdicts):
                 if v.startswith("FAIL"):
                     case = _case_at(ctx, g, i)
@@ -338,6 +346,10 @@ def _apply_stream(ctx):
             ctx.note_case("apply\n" + "\n".join(lines[starts[i] + 1:starts[i + 1]]), True, None)
         if v.startswith("OBS"):
             ctx.count("oracle.apply.observed." + v.split()[1].split(":", 1)[1])
+        elif v.startswith("KNOWN"):   # registered class, recognised by its cause (any other leftover stays a VIOLATION)
+            fp = v.split()[1]
+            ctx.count("oracle.known." + fp.split(":", 1)[1])
+            ctx.violation(fp, OBSERVATIONS.get(fp, v), {"stream": "apply", "ops": _case_at(ctx, ops, i), "oracle_verdict": v}, True)
         elif v.startswith("FAIL"):
             ctx.streams["apply"]["agree"] = False
             case = _case_at(ctx, ops, i)
